@@ -23,11 +23,14 @@ QUICK = [dict(MaxSize=2, Names={"a"}, VNames={"v"}, MaxLen=2, MaxVarRank=1,
 FULL = dict(MaxSize=2, Names={"a"}, VNames={"v"}, MaxLen=2, MaxVarRank=2,
             SymIds={"ap1", "a2", "argn"}, WithQ=True, WithTheorems=True)
 THOROUGH = [
+    # two axis names (interplay of bindings), broadcasting of *v up to rank 2
     dict(MaxSize=2, Names={"a", "b"}, VNames={"v"}, MaxLen=2, MaxVarRank=2,
-         SymIds={"ap1", "apb", "argna"}, WithQ=False, WithTheorems=False),
-    dict(MaxSize=2, Names={"a"}, VNames={"v"}, MaxLen=3, MaxVarRank=1,
-         SymIds={"ap1", "am1"}, WithQ=True, WithTheorems=False),
-    dict(MaxSize=3, Names={"a"}, VNames={"v"}, MaxLen=2, MaxVarRank=2,
+         SymIds={"apb"}, WithQ=False, WithTheorems=False),
+    # three tokens per annotation (prefix / variadic / suffix all present), small sizes
+    dict(MaxSize=1, Names={"a"}, VNames={"v"}, MaxLen=3, MaxVarRank=1,
+         SymIds={"ap1"}, WithQ=True, WithTheorems=False),
+    # sizes up to 3
+    dict(MaxSize=3, Names={"a"}, VNames={"v"}, MaxLen=2, MaxVarRank=1,
          SymIds={"a2", "argm"}, WithQ=False, WithTheorems=False),
 ]
 INVS = ["Rollback", "Frame", "Idempotent", "InAllowed", "GreedyIsSat"]
